@@ -28,11 +28,12 @@ TARGETS = [
         (r'p\[0\]', 'Parser_at(&p, 0)', 1), (r'p\.is_done\(\)', 'Parser_is_done(&p)', 0),
         (r'__auto_type (k|v) = p\.extract_until_char\(', r'struct rsv16 \1 = Parser_extract_until_char(&p, ', 2),
         (r'p\.skip_chars\(\' \', true\);', "Parser_skip_chars_c(&p, ' ', true);", 1), (r"p\.skip_chars\('\\n'\);", "Parser_skip_chars_c(&p, '\\\\n', false);", 1),
+        (r'p\.skip_spaces\(true\);', 'Parser_skip_spaces_c(&p, true);', 0), (r'p\.skip_chars\(\'\\t\', true\);', "Parser_skip_chars_c(&p, '\\t', true);", 0),
         (r'kv_add\(\{k, v\}\)', 'HB_kv_add_c(this, (struct KV){k, v})', 1),
         (r'LOG_ERROR_RETURN\(0, -1,[^;]*;', 'return -1;', 1),
         (r'std::sort\(kv_begin\(\), kv_end\(\), HA\(this\)\);', 'std_sort_kv(HB_kv_begin(this), HB_kv_end(this), this);', 1)],
         marks={'count': 1, 0: dict(name='PARSE', frame=['p', 'this', 'N_KV'],
-               effects={'Parser_extract_until_char': ['p'], 'Parser_skip_chars_c': ['p'], 'HB_kv_add_c': ['this', 'N_KV']}, pure=['Parser_at', 'Parser_is_done'])}),
+               effects={'Parser_extract_until_char': ['p'], 'Parser_skip_chars_c': ['p'], 'Parser_skip_spaces_c': ['p'], 'HB_kv_add_c': ['this', 'N_KV']}, pure=['Parser_at', 'Parser_is_done'])}),
     Target('body_read', B, r'virtual ssize_t read\(void \*buf, size_t count\) override', index=0, count=2, rules=[
         fields_rule(['m_close_delim', 'm_body_remain', 'm_partial_body_remain', 'm_partial_body_buf'], min_fires=8),
         (r'std::min\(', 'std_min(', 1), (r'\bmemcpy\(', 'memcpy_(', 1), (r'm_stream->read\(', 'STREAM_read(this->m_stream, ', 1)]),
